@@ -142,7 +142,8 @@ def or_dash(s):
     return s if s else "-"
 
 
-EXC = {IndexError: "err Index", AttributeError: "err Attribute", NotImplementedError: "err NotImplemented", ValueError: "err Value"}
+EXC = {IndexError: "err Index", AttributeError: "err Attribute", NotImplementedError: "err NotImplemented", ValueError: "err Value",
+       ZeroDivisionError: "err ZeroDivision"}
 
 
 def exc_tok(e):
@@ -150,6 +151,41 @@ def exc_tok(e):
         if isinstance(e, t):
             return s
     return "err " + type(e).__name__
+
+
+def release_widgets():
+    """outside a server solara keeps every comm it ever created, with the stack trace of its creation, in a module-level
+    dict (solara.comm.orphan_comm_stacks): ~0.4 MB per ctrl scenario, gigabytes over a thorough run's workers"""
+    try:
+        import solara.comm
+
+        solara.comm.orphan_comm_stacks.clear()
+    except Exception:  # noqa: S110
+        pass
+
+
+def render_context(element):
+    """solara.render(element, handle_error=False) in two steps: the context exists before rendering, so it can be
+    closed also when rendering raises"""
+    import ipywidgets
+    import reacton.core
+
+    container = ipywidgets.VBox()
+    rc = reacton.core._render_context_class()(element, container, children_trait="children", handle_error=False, initial_state=None)
+    return rc, container
+
+
+def render_once(element):
+    """render a component and close its render context: the space components subscribe to the global update counter,
+    a later force_update (a ctrl scenario in the same worker process) would render them again"""
+    rc, container = render_context(element)
+    try:
+        rc.render(element, container)
+    finally:
+        try:
+            rc.close()
+        except Exception:  # noqa: S110
+            pass
 
 
 # ----------------------------------------------------------------------------------------------
@@ -161,6 +197,7 @@ class SpaceImpl:
         m = L()
         mesa, ms, nx = m["mesa"], m["ms"], m["nx"]
         self.fam, self.w, self.h = fam, w, h
+        self.off = (0, 0)
         self.model = mesa.Model(seed=1)
         rnd = self.model.random
         self.labels, self.sites, self.layout = [], [], None
@@ -191,7 +228,11 @@ class SpaceImpl:
             self.sites = [tuple(extra[i : i + 2]) for i in range(0, len(extra), 2)]
             sp = m["VoronoiGrid"]([list(s) for s in self.sites], random=rnd)
         elif fam == "cs":
-            sp = ms.ContinuousSpace(w, h, False)
+            # an origin other than (0, 0): positions cross the protocol relative to it (the model does not know it), the
+            # real space lies at [x0, x0 + w) x [y0, y0 + h)
+            if extra:
+                self.off = (extra[0], extra[1])
+            sp = ms.ContinuousSpace(w + self.off[0], h + self.off[1], False, x_min=self.off[0], y_min=self.off[1])
         elif fam == "xcs":
             sp = m["XCS"]([[0, w], [0, h]], torus=False, random=rnd)
         else:
@@ -247,7 +288,9 @@ class SpaceImpl:
             else:
                 ag = self.agents.get(vid) or m["mesa"].Agent(self.model)
                 ag.vid = vid
-                sp.place_agent(ag, x if fam == "netgrid" else (x, y))
+                if fam == "cs" and not (0 <= x < self.w and 0 <= y < self.h):
+                    return "err Invalid"
+                sp.place_agent(ag, x if fam == "netgrid" else (x + self.off[0], y + self.off[1]))
         except Exception:
             return "err Invalid"
         self.agents[vid] = ag
@@ -269,7 +312,7 @@ class SpaceImpl:
             else:
                 if fam == "cs" and not (0 <= x < self.w and 0 <= y < self.h):
                     return "err Invalid"
-                sp.move_agent(ag, x if fam == "netgrid" else (x, y))
+                sp.move_agent(ag, x if fam == "netgrid" else (x + self.off[0], y + self.off[1]))
         except Exception:
             return "err Invalid"
         self.where[vid] = (x, y)
@@ -297,7 +340,7 @@ class SpaceImpl:
         a = np.asarray(loc)
         if a.ndim == 0:
             return f"{to_tok('', a)},0"
-        return f"{to_tok('', a[0])},{to_tok('', a[1])}"
+        return f"{to_tok('', a[0] - self.off[0])},{to_tok('', a[1] - self.off[1])}"
 
     def collect(self, defaults=None):
         m = L()
@@ -340,7 +383,8 @@ class SpaceImpl:
         if fam == "vor":
             xs = [s[0] for s in self.sites]
             ys = [s[1] for s in self.sites]
-            return (180 / max(max(xs) - min(xs), max(ys) - min(ys))) ** 2
+            # fix V15: centroids without extent (one cell) are sized like a single cell
+            return (180 / (max(max(xs) - min(xs), max(ys) - min(ys)) or 1)) ** 2
         pos = self.net_layout()
         x, y = list(zip(*pos.values()))
         # fix V12: a layout without extent (one node) is sized like a single cell
@@ -354,11 +398,15 @@ class SpaceImpl:
     def unloc(self, x, y):
         """invert the per-space location transform of draw_*; exact integer units or '?'"""
         fam = self.fam
+        if fam in NETS and getattr(self, "raw_pos", False):
+            rx, ry = round(x), round(y)
+            return f"{rx},{ry}" if abs(x - rx) < 1e-9 and abs(y - ry) < 1e-9 else "?,?"
         if fam in NETS:
             hits = [lab for lab, p in self.net_layout().items() if abs(p[0] - x) < 1e-12 and abs(p[1] - y) < 1e-12]
             return f"{hits[0]},0" if len(hits) == 1 else "?,?"
         if fam in HEXES:
             x, y = x / (SQ3 / 2), y / 0.5
+        x, y = x - self.off[0], y - self.off[1]
         rx, ry = round(x), round(y)
         if abs(x - rx) > 1e-6 or abs(y - ry) > 1e-6:
             return "?,?"
@@ -409,7 +457,9 @@ class SpaceImpl:
                     # the solara component builds its own Figure; post_process receives the Axes
                     got = []
                     comp = m["make_mpl_space_component"](None if default else self.portrayal, post_process=got.append)
-                    m["solara"].render(comp(self.model), handle_error=False)
+                    render_once(comp(self.model))
+                    if len(got) != 1:
+                        raise ValueError(f"post_process called {len(got)} times for one draw")
                     ax = got[0]
                 else:
                     m["draw_space"](self.space, self.portrayal, ax=ax, **kwargs)
@@ -423,6 +473,78 @@ class SpaceImpl:
         self.trace.append(("draw", snap, groups, None, kw, self.heap_before, self.heap_now()))
         return "ok" + "".join(
             f" | {mk} {z} n={len(mem)}" + "".join(" " + ",".join(t) for t in mem) for mk, z, mem in groups)
+
+    def draw_net(self, toks):
+        """draw_space on a network with the layout given by a callable (and keywords for it); edges are not drawn"""
+        m = L()
+        layout = {}
+        for t in toks:
+            n, x, y = t.split(":")
+            layout[int(n)] = (int(x), int(y))
+        calls = []
+
+        def layout_alg(graph, **kw):
+            calls.append((graph is self.graph, dict(kw)))
+            return dict(layout)
+
+        snap = self.snapshot()
+        saved = self.layout
+        self.layout, self.raw_pos = layout, True
+        ax = m["Figure"]().add_subplot()
+        try:
+            with warnings.catch_warnings():
+                warnings.simplefilter("ignore")
+                try:
+                    m["draw_space"](self.space, self.portrayal, ax=ax, layout_alg=layout_alg, layout_kwargs={"scale": 2}, draw_grid=False)
+                except Exception as e:
+                    tok = f"err Key {e.args[0]}" if isinstance(e, KeyError) and e.args else exc_tok(e)
+                    self.trace.append(("drawnet", snap, layout, None, tok, calls, self.heap_before, self.heap_now()))
+                    return tok
+                groups = self.read_axes(ax)
+                size = self.frac_tok(self.s_default(), 10000)
+        finally:
+            self.layout, self.raw_pos = saved, False
+        self.trace.append(("drawnet", snap, layout, groups, size, calls, self.heap_before, self.heap_now()))
+        return f"ok size={size}" + "".join(
+            f" | {mk} {z} n={len(mem)}" + "".join(" " + ",".join(t) for t in mem) for mk, z, mem in groups)
+
+    def frame(self):
+        """the axis limits draw_space asks for (the arguments of its last set_xlim / set_ylim: what matplotlib makes of
+        limits without extent is matplotlib's), in the protocol's units"""
+        m = L()
+        snap = self.snapshot()
+        ax = m["Figure"]().add_subplot()
+        asked = {}
+        for name in ("set_xlim", "set_ylim"):
+            orig = getattr(ax, name)
+
+            def rec(*a, _orig=orig, _name=name, **k):
+                import sys
+
+                # matplotlib calls set_xlim itself too (axvline, autoscaling): only mesa's own requests count
+                if sys._getframe(1).f_code.co_filename.endswith("mpl_space_drawing.py"):
+                    asked[_name] = (a, k)
+                return _orig(*a, **k)
+            setattr(ax, name, rec)
+        with warnings.catch_warnings():
+            warnings.simplefilter("ignore")
+            try:
+                m["draw_space"](self.space, self.portrayal, ax=ax)
+            except Exception as e:
+                self.trace.append(("frame", snap, None, exc_tok(e)))
+                return exc_tok(e)
+        if self.fam in NETS:
+            return "ok -"
+        lims = []
+        for name, unit, off in (("set_xlim", SQ3 / 2 if self.fam in HEXES else 1.0, self.off[0]),
+                                ("set_ylim", 0.5 if self.fam in HEXES else 1.0, self.off[1])):
+            a, k = asked.get(name, ((), {}))
+            if len(a) != 2 or k:
+                lims.append(("?", "?"))
+                continue
+            lims.append(tuple(self.frac_tok((float(v) - off) / unit, 40) for v in a))
+        self.trace.append(("frame", snap, lims, None))
+        return f"ok x={lims[0][0]}..{lims[0][1]} y={lims[1][0]}..{lims[1][1]}"
 
     def sdefault(self):
         """the marker size of agents portrayed by {}: all agents drawn with an empty portrayal"""
@@ -462,7 +584,9 @@ class SpaceImpl:
                     got = []
                     comp = m["make_altair_space"](None if default else self.portrayal, None,
                                                   post_process=lambda ch: (got.append(ch), ch)[1])
-                    m["solara"].render(comp(self.model), handle_error=False)
+                    render_once(comp(self.model))
+                    if len(got) != 1:
+                        raise ValueError(f"post_process called {len(got)} times for one draw")
                     chart = got[0]
                 else:
                     chart = m["_draw_grid"](self.space, self.portrayal)
@@ -471,6 +595,8 @@ class SpaceImpl:
                 self.trace.append(("altair", snap, None, exc_tok(e) + ": " + str(e)[:80], self.heap_before, self.heap_now()))
                 return exc_tok(e)
         rows = d["data"]["values"]
+        if self.off != (0, 0):
+            rows = [{**r, "x": r["x"] - self.off[0], "y": r["y"] - self.off[1]} if "x" in r and "y" in r else r for r in rows]
         if default:
             rows = [{**r, "id": uid.get(r.get("id"), "?")} for r in rows]
         encoding = d.get("encoding", {})
@@ -729,6 +855,10 @@ class SpaceImpl:
             return self.draw(component=True)
         if k == "sdefault":
             return self.sdefault()
+        if k == "drawnet":
+            return self.draw_net(w[1:])
+        if k == "frame":
+            return self.frame()
         if k == "drawk":
             return self.draw(kw=dict(t.split("=") for t in w[1:]))
         if k == "altair":
@@ -793,6 +923,14 @@ class ParamsImpl:
         self.f = None
         self.sig = None
         self.trace = []
+        self.rcs = []
+
+    def close(self):
+        for rc in self.rcs:
+            try:
+                rc.close()
+            except Exception:  # noqa: S110
+                pass
 
     def check_tok(self, call):
         try:
@@ -893,7 +1031,10 @@ class ParamsImpl:
         self.widgets = {}
         with mock.patch.multiple(solara, **{a: spy(k, getattr(solara, a)) for a, k in kinds.items()}):
             try:
-                solara.render(sv.ModelCreator(solara.reactive(inst), params, model_parameters=self.mp), handle_error=False)
+                el = sv.ModelCreator(solara.reactive(inst), params, model_parameters=self.mp)
+                rc, container = render_context(el)
+                self.rcs.append(rc)  # kept open for the `change` ops that follow, closed with the scenario
+                rc.render(el, container)
             except ValueError as e:
                 t = str(e)
                 self.mp = None
@@ -955,10 +1096,358 @@ class ParamsImpl:
             params = {n: self.make_value(v) for n, v in items}
             klass = type("M", (), {"__init__": self.f})
             inst = object.__new__(klass)
-            out = self.check_tok(lambda: solara.render(sv.ModelCreator(solara.reactive(inst), params), handle_error=False))
+            out = self.check_tok(lambda: render_once(sv.ModelCreator(solara.reactive(inst), params)))
             keys = [n for n, _ in items]
             self.trace.append(("creator", self.src, keys, out, self.callable_with(keys), any(p[1] == "vp" for p in self.sig)))
             return out
+        raise ValueError(w)
+
+
+# the implementation side of a ctrl scenario: the real SolaraViz, its buttons clicked
+
+
+class LoopOverrun(BaseException):
+    """the play loop did not end where every scenario's loop ends (BaseException: `step` swallows Exception)"""
+
+
+class CtrlImpl:
+    """SolaraViz rendered by solara.render (Sidebar / AppBar replaced by Column: outside an AppLayout their children
+    are not rendered).  Buttons, sliders, the checkbox and the inputs are recorded at solara's boundary and operated
+    through their on_click / on_value; the play loop (the function handed to solara.lab.use_task) is run to its end in
+    this thread, `time.sleep` of mesa.visualization.solara_viz being the point where the scripted user acts."""
+
+    def __init__(self, kind):
+        from contextlib import ExitStack
+
+        self.kind = kind
+        self.stack = ExitStack()
+        self.trace = []
+        self.ready = False
+        self.created = []
+        self.btns, self.sliders, self.widgets, self.tasks, self.checks = [], {}, {}, [], {}
+        self.script, self.sleeps, self.hook, self.tick_steps = None, 0, None, 0
+
+    def close(self):
+        try:
+            if getattr(self, "rc", None) is not None:
+                self.rc.close()
+        except Exception:  # noqa: S110
+            pass
+        self.stack.close()
+
+    # the model class -------------------------------------------------------------------------
+    def model_class(self):
+        m = L()
+        mesa = m["mesa"]
+        impl = self
+
+        if self.kind == "sim":
+            class CtrlModel(mesa.Model):
+                def __init__(self, simulator=None, **kw):
+                    super().__init__()
+                    self.kw = kw
+                    impl.created.append(self)
+                    self.simulator = simulator
+                    simulator.setup(self)
+
+                def step(self):
+                    impl.on_model_step(self)
+        else:
+            class CtrlModel(mesa.Model):
+                def __init__(self, **kw):
+                    super().__init__()
+                    self.kw = kw
+                    impl.created.append(self)
+
+                def step(self):
+                    impl.on_model_step(self)
+        return CtrlModel
+
+    def on_model_step(self, model):
+        stop = model.kw.get("stop")
+        if stop is not None and model.steps >= stop:
+            model.running = False
+        self.tick_steps += 1
+        if self.hook is not None and self.tick_steps == self.hook:
+            self.click(1)
+
+    # solara's boundary -----------------------------------------------------------------------
+    def viz(self, r, t, stop0, items):
+        from unittest import mock
+
+        m = L()
+        sv, solara = m["sv"], m["solara"]
+        import solara.lab
+        from mesa.visualization import utils as U
+
+        self.U = U
+        pv = ParamsImpl()
+        params = {n: pv.make_param(v) for n, v in items}
+        klass = self.model_class()
+        kw0 = {} if stop0 == "-" else {"stop": int(stop0)}
+        extra = {}
+        if self.kind == "sim":
+            from mesa.experimental.devs import ABMSimulator
+
+            self.simulator = ABMSimulator()
+            model0 = klass(simulator=self.simulator, **kw0)
+            extra["simulator"] = self.simulator
+        else:
+            model0 = klass(**kw0)
+
+        def rec_button(orig):
+            def wrapper(*a, **k):
+                self.btns.append((k.get("label"), k.get("on_click"), bool(k.get("disabled", False))))
+                return orig(*a, **k)
+            return wrapper
+
+        def rec_input(kind, orig):
+            def wrapper(*a, **k):
+                label = a[0] if a else k.get("label")
+                cb = k.get("on_value")
+                if label in ("Play Interval (ms)", "Render Interval (steps)", "Use Threads"):
+                    self.sliders[label] = (cb, k.get("value"))
+                else:
+                    name = cb.__defaults__[0] if cb is not None and cb.__defaults__ else "?"
+                    self.widgets[name] = cb
+                return orig(*a, **k)
+            return wrapper
+
+        def fake_use_task(f, *a, **k):
+            self.tasks.append(f)
+
+        def fake_use_thread(f, *a, **k):
+            return None
+
+        impl = self
+
+        class FakeTime:
+            @staticmethod
+            def sleep(_seconds):
+                impl.on_sleep()
+
+        patches = {a: rec_input(a, getattr(solara, a)) for a in ("SliderInt", "SliderFloat", "Select", "Checkbox", "InputText")}
+        st = self.stack
+        st.enter_context(mock.patch.multiple(solara, Button=rec_button(solara.Button), Sidebar=solara.Column, AppBar=solara.Column,
+                                             use_thread=fake_use_thread, **patches))
+        st.enter_context(mock.patch.object(solara.lab, "use_task", fake_use_task))
+        st.enter_context(mock.patch.object(sv, "time", FakeTime))
+        self.updates0 = U.update_counter.value
+        if self.kind == "sim" and t:
+            raise ValueError("threads with a simulator")
+        try:
+            element = sv.SolaraViz(model0, components=[], model_params=params, render_interval=r, use_threads=bool(t), **extra)
+            self.rc, container = render_context(element)
+            self.rc.render(element, container)
+        except ValueError as e:
+            txt = str(e)
+            if txt.endswith("is not a supported input type"):
+                out = "err unsupported " + txt.split()[0]
+            else:
+                out = ParamsImpl().check_tok(lambda: (_ for _ in ()).throw(e))
+            self.trace.append(("viz", items, out))
+            return out
+        self.ready = True
+        self.items = items
+        self.trace.append(("viz", items, "ok"))
+        return self.state("viz", None)
+
+    def click(self, i):
+        """buttons of the last render of the controller: 0 Reset, 1 the play / pause button, 2 Step"""
+        label, cb, disabled = self.btns[-3:][i]
+        if disabled:
+            return False
+        cb()
+        return True
+
+    def facts(self):
+        cur = self.btns[-3:]
+        model = self.created[-1]
+        return {
+            "gen": len(self.created) - 1, "steps": int(model.steps), "mrunning": bool(model.running),
+            "running": not cur[1][2], "playing": cur[1][0] != "\u25b6", "play_dis": cur[1][2], "step_dis": cur[2][2],
+            "labels": [b[0] for b in cur],
+            "render": int(self.sliders["Render Interval (steps)"][1].value),
+            "updates": int(self.U.update_counter.value - self.updates0),
+            "kwargs": dict(model.kw),
+            "threads": bool(self.sliders["Use Threads"][1].value),
+        }
+
+    def state(self, op, arg, before=None, extra=None):
+        f = self.facts()
+        self.trace.append(("ctrl", op, arg, before, f, extra))
+        b = lambda v: "1" if v else "0"  # noqa: E731
+        return (f"ok gen={f['gen']} steps={f['steps']} mrunning={b(f['mrunning'])} running={b(f['running'])} playing={b(f['playing'])}"
+                f" play={'dis' if f['play_dis'] else 'en'} stepb={'dis' if f['step_dis'] else 'en'} render={f['render']}"
+                f" updates={f['updates']} kwargs=" + or_dash(",".join(f"{k}:{ParamsImpl.val_tok(v)}" for k, v in f["kwargs"].items())))
+
+    # the scripted user -----------------------------------------------------------------------
+    def act(self, tok):
+        if tok == "-":
+            return
+        if tok == "pause":
+            self.click(1)
+        elif tok == "reset":
+            self.click(0)
+        elif tok.startswith("render="):
+            self.sliders["Render Interval (steps)"][0](int(tok.split("=")[1]))
+        elif tok.startswith("set:"):
+            _, name, v = tok.split(":")
+            if name in self.widgets:
+                self.widgets[name](int(v))
+        else:
+            raise ValueError(tok)
+
+    def on_sleep(self):
+        self.sleeps += 1
+        self.tick_steps = 0
+        if self.sleeps <= len(self.script):
+            sl, self.hook = self.script[self.sleeps - 1]
+            self.act(sl)
+        elif self.sleeps == len(self.script) + 1:
+            self.hook = None
+            self.click(1)
+        else:
+            raise LoopOverrun()
+
+    def loop(self, evs):
+        import contextlib
+        import io
+
+        self.script = []
+        for t in evs:
+            sl, _, j = t.partition("@")
+            self.script.append((sl, int(j) if j else None))
+        self.sleeps, self.hook, self.tick_steps = 0, None, 0
+        before = self.facts()
+        step = next(f for f in reversed(self.tasks) if getattr(f, "__name__", "") == "step")
+        buf = io.StringIO()
+        try:
+            with contextlib.redirect_stdout(buf):
+                step()
+        except LoopOverrun:
+            self.hook = None
+            self.trace.append(("ctrl-loop-overrun", evs))
+            return "err overrun"
+        finally:
+            self.hook = None
+        return self.state("loop", evs, before, {"ticks": self.sleeps, "printed": buf.getvalue()[:200], "threads": before["threads"]})
+
+    def line(self, w):
+        k = w[0]
+        if k == "viz":
+            return self.viz(int(w[1]), int(w[2]), w[3], [t.split(":", 1) for t in w[4:]])
+        if not self.ready:
+            raise ValueError(w)
+        before = self.facts()
+        if k in ("step", "play", "reset"):
+            if not self.click({"reset": 0, "play": 1, "step": 2}[k]):
+                self.trace.append(("ctrl-disabled", k, before))
+                return "disabled"
+            return self.state(k, None, before)
+        if k == "render":
+            self.sliders["Render Interval (steps)"][0](int(w[1]))
+            return self.state(k, int(w[1]), before)
+        if k == "threads":
+            if self.kind == "sim" and int(w[1]):
+                # SimulatorController's loop waits for its visualisation thread: cannot be run in one thread
+                raise ValueError("threads with a simulator")
+            self.sliders["Use Threads"][0](bool(int(w[1])))
+            return self.state(k, int(w[1]), before)
+        if k == "change":
+            if w[1] not in self.widgets:
+                return "err noinput"
+            self.widgets[w[1]](int(w[2]))
+            return self.state(k, (w[1], int(w[2])), before)
+        if k == "loop":
+            return self.loop(w[1:])
+        raise ValueError(w)
+
+
+# the implementation side of a plot scenario: PlotMatplotlib on a model with a real DataCollector
+
+PLOT_COLORS = ["red", "green", "blue", "purple"]
+
+
+class PlotImpl:
+    def __init__(self):
+        self.trace = []
+        self.series = {}
+
+    def data(self, toks):
+        m = L()
+        mesa = m["mesa"]
+        self.series = {}
+        for t in toks:
+            name, vs = t.split("=")
+            self.series[name] = [] if vs == "-" else [int(v) for v in vs.split(",")]
+        n = len(next(iter(self.series.values()), []))
+        model = mesa.Model(seed=1)
+        model.i = 0
+        model.datacollector = mesa.DataCollector(
+            model_reporters={name: (lambda mm, name=name: self.series[name][mm.i]) for name in self.series})
+        for i in range(n):
+            model.i = i
+            model.datacollector.collect(model)
+        self.model = model
+        return "ok"
+
+    def plot(self, w):
+        m = L()
+        from mesa.visualization.components import make_plot_component
+
+        kind = w[0]
+        measure = {"str": lambda: w[1], "dict": lambda: dict(t.split(":") for t in w[1:]), "list": lambda: list(w[1:]),
+                   "tuple": lambda: tuple(w[1:]), "other": lambda: None}[kind]()
+        got = []
+        comp = make_plot_component(measure, post_process=got.append)
+        try:
+            with warnings.catch_warnings():
+                warnings.simplefilter("ignore")
+                render_once(comp(self.model))
+        except KeyError as e:
+            tok = f"err Key {e.args[0]}"
+            self.trace.append(("plot", kind, w[1:], dict(self.series), None, tok, len(got)))
+            return tok
+        except Exception as e:
+            self.trace.append(("plot", kind, w[1:], dict(self.series), None, exc_tok(e), len(got)))
+            return exc_tok(e)
+        if len(got) != 1:
+            self.trace.append(("plot", kind, w[1:], dict(self.series), None, f"post_process called {len(got)} times", len(got)))
+            return f"err post-process {len(got)}"
+        ax = got[0]
+        cycle = m["plt"].rcParams["axes.prop_cycle"].by_key()["color"]
+        names = {m["matplotlib"].colors.to_hex(c): c for c in PLOT_COLORS}
+        lines = []
+        for i, ln in enumerate(ax.lines):
+            lab = str(ln.get_label())
+            col = m["matplotlib"].colors.to_hex(ln.get_color())
+            ctok = "-" if col == m["matplotlib"].colors.to_hex(cycle[i % len(cycle)]) else names.get(col, "?")
+            ys = [to_tok("", v) for v in ln.get_ydata()]
+            lines.append(("-" if lab.startswith("_") else lab, ctok, ys))
+        facts = {"ylabel": ax.get_ylabel() or "-", "legend": ax.get_legend() is not None, "xlabel": ax.get_xlabel(), "calls": len(got)}
+        self.trace.append(("plot", kind, w[1:], dict(self.series), lines, facts, len(got)))
+        return (f"ok ylabel={facts['ylabel']} legend={'y' if facts['legend'] else 'n'}"
+                + "".join(f" | {lab},{c},{or_dash('+'.join(ys))}" for lab, c, ys in lines))
+
+    def backend(self, name):
+        from mesa.visualization.components import make_plot_component
+
+        try:
+            make_plot_component("m", backend=name)
+        except Exception as e:
+            self.trace.append(("backend", name, exc_tok(e)))
+            return exc_tok(e)
+        self.trace.append(("backend", name, "ok"))
+        return "ok"
+
+    def line(self, w):
+        if w[0] == "data":
+            return self.data(w[1:])
+        if w[0] == "plot":
+            return self.plot(w[1:])
+        if w[0] == "backend":
+            return self.backend(w[1])
         raise ValueError(w)
 
 
@@ -967,11 +1456,20 @@ def run_impl(sc):
     assert w0[0] == "scenario"
     if w0[1] == "space":
         impl = SpaceImpl(w0[2], int(w0[3]), int(w0[4]), [int(v) for v in w0[5:]])
+    elif w0[1] == "ctrl":
+        impl = CtrlImpl(w0[2])
+    elif w0[1] == "plot":
+        impl = PlotImpl()
     else:
         impl = ParamsImpl()
     obs = ["ok"]
-    for line in sc.lines[1:]:
-        obs.append(impl.line(line.split()))
+    try:
+        for line in sc.lines[1:]:
+            obs.append(impl.line(line.split()))
+    finally:
+        if hasattr(impl, "close"):
+            impl.close()
+        release_widgets()
     sc.meta["trace"] = impl.trace
     return obs
 
@@ -1034,20 +1532,28 @@ def gen_drawlayers(R, names):
 def gen_space(R, tier):
     fam = R.choice(FAMILIES + ("multi", "moore", "hex", "hexm", "netgrid", "net"))
     w, h = R.choice([1, 2, 2, 3, 3, 4, 5]), R.choice([1, 2, 3, 3, 4, 5])
+    if fam in GRID_LEGACY + ("cs",) and R.random() < 0.04:
+        # a space without room (only the mesa.space classes can be built that small): draw_space raises on 0 x 0
+        # (its default size), Altair on width or height 0 (its default mark size)
+        w, h = R.choice([(0, 0), (0, 0), (0, 3), (2, 0)])
     extra, cells = [], None
     if fam in NETS:
         n = R.choice([1, 2, 2, 3, 3, 4, 5, 6])  # one node: a layout without extent (V12)
+        if R.random() < 0.03:
+            n = 0  # a network without nodes: draw_network raises
         labels = list(range(n)) if R.random() < 0.4 else R.sample(range(0, 9), n)
         if R.random() < 0.5:
             R.shuffle(labels)
         extra = labels
         cells = [(lab, 0) for lab in labels]
     elif fam == "vor":
-        pts = R.sample(VOR_POINTS, R.randint(3, 6))
+        pts = R.sample(VOR_POINTS, R.choice([1, 1, 2, 3, 3, 4, 5, 6]))  # one centroid: no extent (V15)
         extra = [c for p in pts for c in p]
         cells = list(pts)
     elif fam in GRIDS:
         cells = [(x, y) for x in range(w) for y in range(h)]
+    if fam == "cs" and R.random() < 0.5:
+        extra = [R.randint(-3, 3), R.randint(-3, 3)]  # x_min, y_min: the width is x_max - x_min, not x_max
     lines = [" ".join(["scenario", "space", fam, str(w), str(h), *map(str, extra)])]
 
     policy = {}
@@ -1064,7 +1570,8 @@ def gen_space(R, tier):
 
     def pick_loc(vid):
         if cells is None:
-            return R.randrange(w), R.randrange(h)
+            # a continuous space without room: a place that both sides refuse
+            return (R.randrange(w), R.randrange(h)) if w and h else (0, 0)
         free = [c for c in cells if not (fam in EXCLUSIVE and occ.get(c) not in (None, vid))]
         if not free:
             return None
@@ -1072,8 +1579,28 @@ def gen_space(R, tier):
         crowded = [c for c in free if c in occ.values()] if fam not in EXCLUSIVE else []
         return R.choice(crowded) if crowded and R.random() < 0.35 else R.choice(free)
 
+    def gen_drawnet():
+        """a layout for the caller's layout algorithm: distinct positions for the nodes, sometimes one node missing, one
+        unknown node more, or (rarely) empty"""
+        if R.random() < 0.04:
+            return "drawnet"
+        labs = list(extra)
+        if labs and R.random() < 0.25:
+            labs.remove(R.choice(labs))
+        if R.random() < 0.15:
+            labs.append(R.choice([n for n in range(9, 13)]))
+        R.shuffle(labs)
+        spots = R.sample([(x, y) for x in range(-2, 5) for y in range(-1, 4)], len(labs))
+        if len(labs) > 1 and R.random() < 0.1:
+            spots = [(spots[0][0], spots[0][1] + i) for i in range(len(labs))]  # all on one vertical line
+        return " ".join(["drawnet", *[f"{n}:{x}:{y}" for n, (x, y) in zip(labs, spots)]])
+
     def observe():
         k = R.random()
+        if fam in NETS and k < 0.22:
+            return gen_drawnet()
+        if fam not in NETS and k < 0.06:
+            return "frame"
         if k < 0.28:
             return "collect"
         if k < 0.36:
@@ -1119,7 +1646,7 @@ def gen_space(R, tier):
             lines.append(observe())
     for _ in range(R.randint(1, 3)):
         lines.append(observe())
-    if fam in GRIDS and R.random() < 0.5:
+    if fam in GRIDS and w * h > 0 and R.random() < 0.5:
         def layer_vals():
             vals = [R.randrange(10) for _ in range(w * h)]
             if R.random() < 0.12:
@@ -1346,8 +1873,130 @@ def enum_signatures(maxn=3):
     return out
 
 
+CTRL_NAMES = ["n", "a", "b", "z"]
+
+
+def gen_ctrl_param(R, name):
+    """a model_params value; `stop` (compared with model.steps) is always a number or None"""
+    k = R.random()
+    num = name == "stop"
+    if k < 0.3:
+        return f"{name}:val/{R.randrange(10)}", False
+    if k < 0.36 and not num:
+        return f"{name}:fdict", False
+    if k < 0.65:
+        return f"{name}:slider/{R.choice('if')}/{R.randrange(10)}/{R.choice(['N', 'lbl', name])}", True
+    t = R.choice(INPUT_TYPES[:3] if num else INPUT_TYPES) if (num or R.random() < 0.96) else R.choice(["Foo", "slider"])
+    v = "-" if R.random() < 0.1 else str(R.randrange(2) if t == "Checkbox" else R.randrange(10))
+    return f"{name}:spec/{t}/{v}/{R.choice(['-', '-', 'K', 'lbl'])}", True
+
+
+def gen_ctrl(R, tier):
+    kind = "model" if R.random() < 0.65 else "sim"
+    lines = [f"scenario ctrl {kind}"]
+    r = R.choice([1, 1, 2, 3, 4, 5])
+    t = 1 if kind == "model" and R.random() < 0.15 else 0
+    stop0 = "-" if R.random() < 0.25 else str(R.randrange(9))
+    names = (["stop"] if R.random() < 0.65 else []) + R.sample(CTRL_NAMES, R.choice([0, 1, 1, 2, 3]))
+    R.shuffle(names)
+    toks, inputs, unsupported = [], [], False
+    for n in names:
+        tok, adjustable = gen_ctrl_param(R, n)
+        toks.append(tok)
+        if adjustable:
+            inputs.append(n)
+        if tok.split("/")[0].endswith("spec") and tok.split("/")[1] not in INPUT_TYPES:
+            unsupported = True
+    lines.append(" ".join(["viz", str(r), str(t), stop0, *toks]))
+    if unsupported:
+        return core.Scenario(lines, {})
+
+    def pick_input():
+        pool = inputs if inputs and R.random() < 0.92 else (names or ["zz"])
+        n = R.choice(pool)
+        return n, (R.randrange(10) if n != "stop" or R.random() < 0.8 else R.randrange(3))
+
+    def gen_loop():
+        evs = []
+        for _ in range(R.choice([0, 1, 1, 2, 2, 3, 4])):
+            k = R.random()
+            if k < 0.55:
+                e = "-"
+            elif k < 0.66:
+                e = "pause"
+            elif k < 0.73:
+                e = "reset"
+            elif k < 0.85:
+                e = f"render={R.choice([1, 2, 3, 4])}"
+            else:
+                n, v = pick_input()
+                e = f"set:{n}:{v}"
+            if R.random() < 0.15:
+                e += f"@{R.randint(1, 4)}"
+            evs.append(e)
+        return " ".join(["loop", *evs])
+
+    for _ in range(R.randint(3, 12)):
+        k = R.random()
+        if k < 0.25:
+            lines.append("step")
+        elif k < 0.55:
+            if R.random() < 0.9:
+                lines.append("play")
+            lines.append(gen_loop())
+        elif k < 0.7:
+            lines.append("reset")
+        elif k < 0.85:
+            n, v = pick_input()
+            lines.append(f"change {n} {v}")
+            if R.random() < 0.5:
+                lines.append("reset")
+        elif k < 0.93:
+            lines.append(f"render {R.choice([1, 2, 3, 4, 5])}")
+        elif k < 0.97 and kind == "model":
+            lines.append(f"threads {R.randrange(2)}")
+        else:
+            lines.append("play")
+    if R.random() < 0.5:
+        lines.append("reset")
+    return core.Scenario(lines, {})
+
+
+PLOT_MEASURES = ["a", "b", "c", "Gini"]
+
+
+def gen_plot(R, tier):
+    lines = ["scenario plot"]
+    for _ in range(R.randint(1, 2)):
+        names = R.sample(PLOT_MEASURES, R.randint(1, 3))
+        n = R.choice([0, 1, 2, 3, 5])
+        lines.append(" ".join(["data", *[f"{m}=" + (",".join(str(R.randrange(10)) for _ in range(n)) or "-") for m in names]]))
+        for _ in range(R.randint(2, 5)):
+            def pick(k):
+                pool = names if R.random() < 0.85 else PLOT_MEASURES + ["zz"]
+                return [R.choice(pool) for _ in range(k)] if R.random() < 0.2 else R.sample(pool, min(k, len(pool)))
+            k = R.random()
+            if k < 0.25:
+                lines.append(f"plot str {pick(1)[0]}")
+            elif k < 0.5:
+                ms = list(dict.fromkeys(pick(R.randint(0, 3))))
+                lines.append(" ".join(["plot", "dict", *[f"{m}:{R.choice(PLOT_COLORS)}" for m in ms]]))
+            elif k < 0.7:
+                lines.append(" ".join(["plot", "list", *pick(R.randint(0, 3))]))
+            elif k < 0.9:
+                lines.append(" ".join(["plot", "tuple", *pick(R.randint(0, 3))]))
+            elif k < 0.95:
+                lines.append("plot other")
+            else:
+                lines.append(f"backend {R.choice(['matplotlib', 'altair', 'bokeh'])}")
+    return core.Scenario(lines, {})
+
+
 def gen_scenario(R, tier):
-    return gen_space(R, tier) if R.random() < 0.4 else gen_params(R, tier)
+    k = R.random()
+    if k >= 0.97:
+        return gen_plot(R, tier)
+    return gen_space(R, tier) if k < 0.4 else gen_ctrl(R, tier) if k < 0.52 else gen_params(R, tier)
 
 
 # ----------------------------------------------------------------------------------------------
@@ -1372,11 +2021,180 @@ def partial_optional(snap):
     return None
 
 
+def ctrl_expected_params(items):
+    """model_parameters as ModelCreator sets it: the fixed values, then the inputs at their value"""
+    fixed, user = {}, {}
+    for n, v in items:
+        f = v.split("/")
+        if f[0] == "val":
+            fixed[n] = f[1]
+        elif f[0] == "fdict":
+            fixed[n] = "dict"
+        else:
+            user[n] = "None" if f[2] == "-" else f[2]
+    return {**fixed, **user}, list(user)
+
+
+def oracle_ctrl(tr):
+    """the controls of SolaraViz: what the clauses demand of each click, judged on what the real components did"""
+    bad = []
+    params, inputs = {}, []
+    for ev in tr:
+        kind = ev[0]
+        if kind == "viz":
+            if ev[2] == "ok":
+                params, inputs = ctrl_expected_params(ev[1])
+            continue
+        if kind == "ctrl-loop-overrun":
+            bad.append(f"ctrl-loop-overrun: the play loop went on after the pause button was clicked ({ev[1]})")
+            continue
+        if kind != "ctrl":
+            continue
+        _, op, arg, before, f, extra = ev
+        got_kw = {k: ParamsImpl.val_tok(v) for k, v in f["kwargs"].items()}
+        # the flag the buttons show is the model's whenever the controller has stepped or replaced the model
+        # (seen, not counted: toggling the threads checkbox mounts the controller anew — its flags start over)
+        if (op in ("step", "reset") or (op == "loop" and extra["ticks"] > 0)) and f["running"] != f["mrunning"]:
+            bad.append(f"ctrl-running-flag: after {op} the controls show running={f['running']}, model.running is {f['mrunning']}")
+        if f["step_dis"] != (f["playing"] or not f["running"]) or f["play_dis"] != (not f["running"]):
+            bad.append(f"ctrl-buttons: after {op}: playing={f['playing']} running={f['running']} but Step disabled={f['step_dis']}, "
+                       f"play / pause disabled={f['play_dis']}")
+        if before is None:
+            continue
+        if f["gen"] < before["gen"]:
+            bad.append(f"ctrl-gen: {op} went back to an earlier model")
+        if f["gen"] == before["gen"] and f["steps"] < before["steps"]:
+            bad.append(f"ctrl-steps-monotone: {op} took model.steps from {before['steps']} to {f['steps']} without a reset")
+        if f["updates"] < before["updates"]:
+            bad.append(f"ctrl-updates: {op} decreased the update counter")
+        # the parameter set as the user's changes leave it; `snap`: what the last reset of this op saw
+        snap = None
+        if op == "change":
+            if arg[0] in inputs:
+                params = {**params, arg[0]: str(arg[1])}
+        elif op == "reset":
+            snap = dict(params)
+        elif op == "loop" and before["playing"] and before["running"]:
+            for t in arg[: max(0, extra["ticks"])]:
+                sl = t.partition("@")[0]
+                if sl.startswith("set:"):
+                    _, n, v = sl.split(":")
+                    if n in inputs:
+                        params = {**params, n: v}
+                elif sl == "reset":
+                    snap = dict(params)
+        if op == "step":
+            if (f["steps"], f["updates"], f["gen"], f["playing"]) != (before["steps"] + before["render"], before["updates"] + 1, before["gen"], False):
+                bad.append(f"ctrl-step-button: Step with render interval {before['render']} took steps {before['steps']} -> {f['steps']}, "
+                           f"updates {before['updates']} -> {f['updates']}")
+        elif op == "play":
+            if f["playing"] == before["playing"] or (f["steps"], f["gen"], f["updates"], f["running"]) != (
+                    before["steps"], before["gen"], before["updates"], before["running"]):
+                bad.append(f"ctrl-play-button: the play / pause button took playing {before['playing']} -> {f['playing']}, steps "
+                           f"{before['steps']} -> {f['steps']}")
+        elif op in ("render", "threads", "change"):
+            remount = op == "threads" and bool(arg) != before["threads"]
+            if (f["steps"], f["gen"]) != (before["steps"], before["gen"]) or (
+                    not remount and (f["playing"], f["running"]) != (before["playing"], before["running"])):
+                bad.append(f"ctrl-setting: {op} {arg} changed the run state")
+            if op == "render" and f["render"] != arg:
+                bad.append(f"ctrl-setting: render interval set to {arg}, the controls hold {f['render']}")
+        elif op == "reset":
+            if (f["gen"], f["steps"], f["playing"], f["running"]) != (before["gen"] + 1, 0, False, True):
+                bad.append(f"ctrl-reset: after Reset gen {before['gen']} -> {f['gen']}, steps={f['steps']} playing={f['playing']} running={f['running']}")
+        elif op == "loop":
+            if extra["printed"]:
+                bad.append(f"ctrl-loop-error: the play loop printed {extra['printed']!r}")
+            if not (before["playing"] and before["running"]):
+                if {k: f[k] for k in f if k != "labels"} != {k: before[k] for k in before if k != "labels"}:
+                    bad.append(f"ctrl-loop-idle: a loop started with playing={before['playing']} running={before['running']} changed {before} to {f}")
+            else:
+                if f["playing"] and f["running"]:
+                    bad.append("ctrl-loop-end: the play loop ended while playing and running")
+                plain = all(t == "-" for t in arg)
+                stop = before["kwargs"].get("stop")
+                # a click on pause during the j-th step of a tick (undisturbed ticks before it, the model running up to
+                # there): the tick ends right after that step, and so does the loop
+                hk = next((i for i, t in enumerate(arg) if "@" in t), None)
+                if hk is not None and all(t == "-" for t in arg[:hk]) and arg[hk].startswith("-@") and f["gen"] == before["gen"]:
+                    j, r, s0 = int(arg[hk].split("@")[1]), before["render"], before["steps"]
+                    end = s0 + r * hk + j
+                    if j <= r and (stop is None or end <= stop) and (f["steps"], f["playing"]) != (end, False):
+                        bad.append(f"ctrl-pause-during-step: pause clicked during step {j} of tick {hk + 1} (render interval {r}, from step {s0}): "
+                                   f"the loop ended at step {f['steps']} with playing={f['playing']}, expected step {end}, paused")
+                if plain and f["gen"] == before["gen"]:
+                    r, s0, n = before["render"], before["steps"], len(arg)
+                    need = None if stop is None or stop <= s0 else -(-(int(stop) - s0) // r)
+                    if stop is not None and stop <= s0:
+                        need = 1  # running is only looked at after a step
+                    if need is not None and need <= n:
+                        want = (s0 + r * need, False, True, need)
+                    else:
+                        want = (s0 + r * (n + 1), True if stop is None or s0 + r * (n + 1) < stop else False, False, n + 1)
+                    ups = f["updates"] - before["updates"]
+                    # under threads only the tick after the pause (not playing any more) updates
+                    want_ups = want[3] if not extra.get("threads") else (1 if not want[2] else 0)
+                    if (f["steps"], f["running"], f["playing"]) != want[:3] or ups != want_ups:
+                        bad.append(f"ctrl-play-loop: {n} undisturbed ticks from step {s0} at render interval {r} on a model stopping at {stop}: "
+                                   f"steps={f['steps']} running={f['running']} playing={f['playing']} updates+{ups}, expected {want[:3]} updates+{want_ups}")
+        if snap is not None and f["gen"] > before["gen"]:
+            # the model a reset creates gets the parameter set as it then was: every name of model_params, the inputs at
+            # the value last reported
+            if got_kw != snap:
+                bad.append(f"ctrl-reset-params: the model created by the reset got {got_kw}, the parameters were {snap}")
+        elif f["gen"] == before["gen"] and f["kwargs"] != before["kwargs"]:
+            bad.append(f"ctrl-kwargs: {op} changed the model's arguments without a reset")
+    return bad
+
+
+def oracle_plot(tr):
+    """the measure plots: one line per requested measure, in order, with that measure's collected values"""
+    bad = []
+    for ev in tr:
+        if ev[0] != "plot":
+            continue
+        _, kind, args, series, lines, facts, calls = ev
+        req = [a.split(":")[0] for a in args] if kind != "other" else []
+        cols = [a.split(":")[1] for a in args] if kind == "dict" else ["-"] * len(req)
+        missing = [m for m in req if m not in series]
+        if lines is None:
+            if not (missing and facts == f"err Key {missing[0]}"):
+                bad.append(f"plot-raised: plotting {kind} {args} over the measures {sorted(series)} gave {facts}")
+            continue
+        if missing:
+            bad.append(f"plot-missing-measure: {missing[0]} is not collected, plotted all the same")
+            continue
+        want = [("-" if kind == "str" else m, c, [str(v) for v in series[m]]) for m, c in zip(req, cols)]
+        if [(a, b, list(c)) for a, b, c in lines] != want:
+            bad.append(f"plot-one-line-per-measure: lines {lines} for the request {kind} {args} over {series}")
+        if facts["calls"] != 1:
+            bad.append(f"plot-post-process: the hook was called {facts['calls']} times")
+        if facts["legend"] != (kind in ("dict", "list", "tuple")) or (facts["ylabel"] != "-") != (kind == "str") or facts["xlabel"] != "Step":
+            bad.append(f"plot-labels: {facts} for a {kind} request")
+    return bad
+
+
+def no_room(w0):
+    """space scenarios on a space that cannot hold an agent and that draw_space / Altair refuse for its size (outside the
+    property's quantifier: there is no occupancy state to show): (draw_space refuses, Altair refuses)"""
+    fam, w, h = w0[2], int(w0[3]), int(w0[4])
+    if fam in GRID_LEGACY + ("cs",):
+        return (w == 0 and h == 0, w == 0 or h == 0)
+    if fam in NETS:
+        return (len(w0) == 5, False)
+    return (False, False)
+
+
 def oracle(sc, obs):
     bad = []
     tr = sc.meta.get("trace") or []
     w0 = sc.lines[0].split()
+    if w0[1] == "ctrl":
+        return oracle_ctrl(tr)
+    if w0[1] == "plot":
+        return oracle_plot(tr)
     fam = w0[2] if w0[1] == "space" else None
+    draw_refuses, altair_refuses = no_room(w0) if fam else (False, False)
     for ev in tr:
         kind = ev[0]
         if kind == "collect":
@@ -1417,6 +2235,8 @@ def oracle(sc, obs):
                 continue
             if kw:
                 snap = [(v, loc, {**d, **{k: to_py(k, t) for k, t in kw.items()}}) for v, loc, d in snap]
+            if err is not None and draw_refuses and not snap:
+                continue
             if err is not None:
                 key = partial_optional(snap)
                 if key and err.startswith("err Index"):
@@ -1435,7 +2255,7 @@ def oracle(sc, obs):
         elif kind == "altair":
             if ev[3] is not None:
                 _, snap, rows, err, _hb, _ha = ev
-                if fam in ALTAIR_OK:
+                if fam in ALTAIR_OK and not (altair_refuses and not snap):
                     bad.append(f"altair-raised: _draw_grid raised {err} with {len(snap)} agents in the space")
                 continue
             _, snap, rows, err, facts, _hb, _ha = ev
@@ -1450,15 +2270,72 @@ def oracle(sc, obs):
                     bad.append(f"altair-encoding: the chart encodes {ch}, no row has it")
                 if rows and all(ch in d for _, _, d in snap) and ch not in facts["enc"]:
                     bad.append(f"altair-encoding: every agent is portrayed with a {ch}, the chart does not encode it")
+                # open finding A1: the channel is read off the first row, so with a key that some agents return and others do
+                # not, either returned values are not shown (no channel) or marks have no value for the channel
+                has = [ch in d for _, _, d in snap]
+                if rows and any(has) and not all(has):
+                    bad.append(f"altair-encoding-first-row: {sum(has)} of {len(has)} agents are portrayed with a {ch}; the chart "
+                               f"{'encodes it (rows without a value)' if ch in facts['enc'] else 'does not encode it (returned values not shown)'}")
             if ("size" in facts["enc"]) == (facts["mark"] != "-"):
                 bad.append(f"altair-mark-size: size encoded: {'size' in facts['enc']}, default mark size {facts['mark']}")
             if facts["type"] != "point" or facts["filled"] is not True:
                 bad.append(f"altair-mark: marks are {facts['type']} filled={facts['filled']}")
             if any(t in ("x", "y", "color", "size") or not any(t in r for r in rows) for t in facts["tip"]):
                 bad.append(f"altair-tooltip: tooltip fields {facts['tip']} for rows {rows}")
+        elif kind == "drawnet":
+            _, snap, layout, groups, tok, calls, _hb, _ha = ev
+            layout = {int(k): tuple(v) for k, v in layout.items()}
+            # the caller's layout algorithm is called once, with the space's graph and the caller's keywords
+            if layout and calls != [(True, {"scale": 2})] and calls != [[True, {"scale": 2}]]:
+                bad.append(f"drawnet-layout-call: the layout algorithm was called as {calls}")
+            missing = [loc[0] for _, loc, _ in snap if loc[0] not in layout]
+            if groups is None:
+                if not layout or (missing and tok.startswith("err Key")):
+                    continue
+                bad.append(f"drawnet-raised: draw_network raised {tok} with every agent's node in the layout {layout}")
+                continue
+            if missing:
+                bad.append(f"drawnet-missing-node: agents on nodes {missing} the layout has no position for, drawn all the same")
+                continue
+            xs, ys = [v[0] for v in layout.values()], [v[1] for v in layout.values()]
+            ext = max(max(xs) - min(xs), max(ys) - min(ys)) or 1
+            from fractions import Fraction
+
+            if tok != str(Fraction(32400, ext * ext)):
+                bad.append(f"drawnet-default-size: default size {tok} for a layout of extent {ext}")
+            # one marker per agent, at the position the layout gives for the label of its node
+            want = sorted((f"{layout[loc[0]][0]},{layout[loc[0]][1]}",) + expected_marker(fam, loc, d, "D")[1:] + tuple(
+                to_tok(k, d[k]) if k in d else "-" for k in ("alpha", "edgecolors", "linewidths")) for _, loc, d in snap)
+            got = sorted((t[0], t[1], t[2], mk, z, t[3], t[4], t[5]) for mk, z, mem in groups for t in mem)
+            if got != want:
+                bad.append(f"drawnet-marker-at-layout-position: drawn {got} but the agents and the layout {layout} demand {want}")
+        elif kind == "frame":
+            _, snap, lims, err = ev
+            if lims is None:
+                if not (draw_refuses and not snap):
+                    bad.append(f"frame-raised: draw_space raised {err} with {len(snap)} agents in the space")
+                continue
+            from fractions import Fraction
+
+            # every agent is drawn inside the limits (on them at most where the space has no extent: Voronoi centroids in line)
+            try:
+                (x0, x1), (y0, y1) = [tuple(Fraction(t) for t in lim) for lim in lims]
+            except ValueError:
+                bad.append(f"frame-limits: limits {lims} are not what draw_space is expected to ask for")
+                continue
+            for _, loc, _d in snap:
+                px, py = (2 * loc[0] + ((loc[1] - 1) % 2), 3 * loc[1]) if fam in HEXES else loc
+                strict = fam != "vor"
+                okx = x0 < px < x1 if (strict or x0 != x1) else x0 <= px <= x1
+                oky = y0 < py < y1 if (strict or y0 != y1) else y0 <= py <= y1
+                if not (okx and oky):
+                    bad.append(f"frame-shows-every-agent: the agent at {loc} is drawn at ({px}, {py}), outside the limits {lims}")
+                    break
         elif kind == "sdefault":
             _, n, tok = ev
             # the default size is a positive finite number whenever there is an agent to draw (V12)
+            if tok.startswith("err") and draw_refuses and n == 0:
+                continue
             if tok.startswith("err") or (n > 0 and tok in ("none", "several", "?", "inf", "nan")) or (n == 0 and tok != "none"):
                 bad.append(f"default-size: with {n} agents in the space the default marker size is {tok}")
         elif kind == "layer-mutated":
@@ -1470,7 +2347,7 @@ def oracle(sc, obs):
             known = [sp for sp in specs if sp[0] in datas]
             if with_agents and not specs:
                 # draw_space skips an empty request: nothing to refuse, nothing to draw
-                if err is not None or res:
+                if (err is not None and not draw_refuses) or res:
                     bad.append(f"layers-empty-request: draw_space with an empty layer request gave {err or res}")
                 continue
 
@@ -1616,6 +2493,6 @@ def oracle(sc, obs):
             if any(udict.get(n, fdict.get(n)) is not params[n] for n in names):
                 bad.append("split-values: a value changed identity in the split")
         # the dicts the portrayal handed out are as the portrayal left them (V3)
-        if kind in ("collect", "draw", "altair") and ev[-2] != ev[-1]:
+        if kind in ("collect", "draw", "altair", "drawnet") and ev[-2] != ev[-1]:
             bad.append(f"portrayal-dict-mutated: {kind} changed the portrayal's dicts from {ev[-2]} to {ev[-1]}")
     return bad
